@@ -112,6 +112,10 @@ pub fn next_solution_or<'a>(sn: Rc<RefCell<SolutionNode<'a>>>)
         Some(_) => { return solution; },
     }
 
+    // A cut (!) in the first alternative disables backtracking on this node
+    // (see set_no_backtracking()). The other alternatives must not be tried.
+    if unsafe { (*sn.as_ptr()).no_backtracking } { return None; }
+
     match &sn_ref.operator_tail {
         None => { return None; },
         Some(tail) => {
